@@ -224,6 +224,14 @@ where
 
         {
             let mut guard = self.group.write();
+
+            // Creating the actor involved awaiting, another task may have registered the
+            // keyspace in the meantime. Every user must end up with the same actor,
+            // otherwise operations get applied to a state nobody else can see.
+            if let Some(existing) = guard.get(&name) {
+                return existing.clone();
+            }
+
             guard.insert(name.clone(), state.clone());
         }
 
